@@ -1,7 +1,7 @@
 (* C08 -- Damaged/mismatched chunks and unreachable stores never masquerade as data.  Only statements here. *)
 From Coq Require Import ZArith List Bool String.
 From KV Require Import Base.Sx Base.Str Gen.Generated Model.Npy Model.StoreErr Proofs.NpyP Proofs.StoreErrP.
-From KV Require Import Model.Prune Model.LostMap Model.VfwDamage Proofs.VfwDamageP.
+From KV Require Import Model.Prune Model.LostMap Model.VfwDamage Proofs.VfwDamageP Proofs.NpyHdrP.
 From KV Require Proofs.C06P.
 Import ListNotations.
 Open Scope Z_scope.
@@ -238,17 +238,17 @@ Print Assumptions C08_put_outcome_classified.
    - an element all of whose four covering chunks are healthy comes back as stored, flags unchanged (no spurious
      data_lost: the flagged elements are EXACTLY those of the damaged chunks). *)
 Theorem C08_damaged_chunk_zero_filled_and_flagged :
-  forall (parse_hdr : bytes -> option hdr) (print_hdr : hdr -> bytes),
-  (forall m, parse_hdr (print_hdr m) = Some m) ->
+  forall (parse_hdr : bytes -> option hdr) (print_hdr : hdr -> bytes) (ok : hdr -> Prop),
+  (forall m, ok m -> parse_hdr (print_hdr m) = Some m) ->
   forall ds files wants p,
   npy_backed parse_hdr ds files wants -> C06P.cfg_ok (cfg_of_dstore ds) p ->
-  (file_damaged print_hdr (files A_VIS (cover ds A_VIS p)) ->
+  (file_damaged print_hdr ok (files A_VIS (cover ds A_VIS p)) ->
      dmg_vis ds p = 0 /\ Z.testbit (dmg_flags ds p) 3 = true) /\
-  (file_damaged print_hdr (files A_W (cover ds A_W p)) \/ file_damaged print_hdr (files A_WC (cover ds A_WC p)) ->
+  (file_damaged print_hdr ok (files A_W (cover ds A_W p)) \/ file_damaged print_hdr ok (files A_WC (cover ds A_WC p)) ->
      dmg_weights ds p = 0 /\ Z.testbit (dmg_flags ds p) 3 = true) /\
-  (file_damaged print_hdr (files A_FLAGS (cover ds A_FLAGS p)) ->
+  (file_damaged print_hdr ok (files A_FLAGS (cover ds A_FLAGS p)) ->
      Z.testbit (dmg_flags ds p) 3 = true /\ forall i, 0 <= i -> i <> 3 -> Z.testbit (dmg_flags ds p) i = false) /\
-  ((forall a, In a arrays4 -> file_healthy print_hdr (files a (cover ds a p)) (wants a (cover ds a p))) ->
+  ((forall a, In a arrays4 -> file_healthy print_hdr ok (files a (cover ds a p)) (wants a (cover ds a p))) ->
      dmg_vis ds p = stored_at ds A_VIS p /\ dmg_weights ds p = stored_at ds A_W p * stored_at ds A_WC p /\
      dmg_flags ds p = stored_at ds A_FLAGS p).
 Proof. exact damaged_chunk_zero_filled_and_flagged. Qed.
@@ -276,9 +276,9 @@ Print Assumptions C08_filler_only_for_notfound.
 
 (* S3: an object cut at any offset (whole-object Content-Length) or a 404 is filler for both getters *)
 Theorem C08_s3_damaged_object_is_filler :
-  forall (parse_hdr : bytes -> option hdr) (print_hdr : hdr -> bytes),
-  (forall m, parse_hdr (print_hdr m) = Some m) ->
-  forall k major nb m body n want, wf_file print_hdr major nb m body ->
+  forall (parse_hdr : bytes -> option hdr) (print_hdr : hdr -> bytes) (ok : hdr -> Prop),
+  (forall m, ok m -> parse_hdr (print_hdr m) = Some m) ->
+  forall k major nb m body n want, ok m -> wf_file print_hdr major nb m body ->
   existsb (Z.eqb major) [1; 2] = true -> (n < List.length (encode print_hdr major nb m body))%nat ->
   (exists v, vfw_getter k SS3 (low_of_object parse_hdr (Some (firstn n (encode print_hdr major nb m body))) want) = Ret v
              /\ is_filler v = true) /\
@@ -290,21 +290,21 @@ Print Assumptions C08_s3_damaged_object_is_filler.
    of the preselected window fails it with BadChunk (never zero-filled); an exception out of a load is never a
    ChunkNotFound; the chunk covering an element of the window is always among the chunks the load asks for *)
 Theorem C08_damaged_store_loads :
-  forall (parse_hdr : bytes -> option hdr) (print_hdr : hdr -> bytes),
-  (forall m, parse_hdr (print_hdr m) = Some m) ->
+  forall (parse_hdr : bytes -> option hdr) (print_hdr : hdr -> bytes) (ok : hdr -> Prop),
+  (forall m, ok m -> parse_hdr (print_hdr m) = Some m) ->
   forall ds files wants, npy_backed parse_hdr ds files wants ->
   (forall a id, In (a, id) (needed ds) ->
-     file_damaged print_hdr (files a id) \/ file_healthy print_hdr (files a id) (wants a id)) ->
+     file_damaged print_hdr ok (files a id) \/ file_healthy print_hdr ok (files a id) (wants a id)) ->
   load_errors ds = [].
 Proof. exact damaged_store_loads. Qed.
 Print Assumptions C08_damaged_store_loads.
 
 Theorem C08_mismatched_chunk_fails_load :
-  forall (parse_hdr : bytes -> option hdr) (print_hdr : hdr -> bytes),
-  (forall m, parse_hdr (print_hdr m) = Some m) ->
+  forall (parse_hdr : bytes -> option hdr) (print_hdr : hdr -> bytes) (ok : hdr -> Prop),
+  (forall m, ok m -> parse_hdr (print_hdr m) = Some m) ->
   forall ds files wants p a, npy_backed parse_hdr ds files wants ->
   C06P.cfg_ok (cfg_of_dstore ds) p -> In a arrays4 ->
-  file_mismatched print_hdr (files a (cover ds a p)) (wants a (cover ds a p)) ->
+  file_mismatched print_hdr ok (files a (cover ds a p)) (wants a (cover ds a p)) ->
   In K_BadChunk (load_errors ds) /\ load_errors ds <> [].
 Proof. exact mismatched_chunk_fails_load. Qed.
 Print Assumptions C08_mismatched_chunk_fails_load.
@@ -356,3 +356,61 @@ Print Assumptions C08_getter_selection.
 Theorem C08_decoded_check_per_store : forall s, decoded_check s = (true, true, K_BadChunk).
 Proof. exact decoded_check_all. Qed.
 Print Assumptions C08_decoded_check_per_store.
+
+(* ==== the concrete header text: the hypothesis "the parser reads back what the printer writes" is a THEOREM for the
+   parser the executable model runs with (numpy's canonical header of a simple dtype), for every descriptor made of
+   printable characters other than quote and backslash, every shape of any rank, any padding ==== *)
+Theorem C08_header_parser_reads_back_printer : forall pad m,
+  descr_ok (h_descr m) -> parse_hdr_c (print_hdr_c pad m) = Some m.
+Proof. exact parse_print_c. Qed.
+Print Assumptions C08_header_parser_reads_back_printer.
+
+(* ... so the framing theorem holds for real header text with no assumption on the parser left: *)
+Theorem C08_truncation_never_data_concrete : forall pad major nb m body k,
+  descr_ok (h_descr m) -> wf_file (print_hdr_c pad) major nb m body ->
+  (k < List.length (encode (print_hdr_c pad) major nb m body))%nat ->
+  np_load parse_hdr_c (firstn k (encode (print_hdr_c pad) major nb m body)) = Err (if Nat.eqb k 0 then EEOF else EValue)
+  /\ (existsb (Z.eqb major) [1; 2] = true ->
+      s3_read_array parse_hdr_c (firstn k (encode (print_hdr_c pad) major nb m body)) = Err EIncomplete).
+Proof. exact truncation_never_data_c. Qed.
+Print Assumptions C08_truncation_never_data_concrete.
+
+Theorem C08_complete_file_decodes_concrete : forall pad major nb m body,
+  descr_ok (h_descr m) -> wf_file (print_hdr_c pad) major nb m body ->
+  np_load parse_hdr_c (encode (print_hdr_c pad) major nb m body) = Ok (m, body).
+Proof. exact decode_encode_c. Qed.
+Print Assumptions C08_complete_file_decodes_concrete.
+
+(* ... every proper prefix of a real chunk file is filler for the getter of flags and of the other arrays, the whole
+   file is data; and the data-set level statement without any hypothesis on the parser *)
+Theorem C08_chunk_file_prefixes_concrete : forall pad k major nb m body n want,
+  hdr_ok m -> wf_file (print_hdr_c pad) major nb m body ->
+  (n < List.length (encode (print_hdr_c pad) major nb m body))%nat ->
+  (exists v, vfw_getter k SNpy (low_of_file parse_hdr_c (Some (firstn n (encode (print_hdr_c pad) major nb m body))) want) = Ret v
+             /\ is_filler v = true) /\
+  vfw_getter k SNpy (low_of_file parse_hdr_c (Some (encode (print_hdr_c pad) major nb m body)) m) = Ret Stored.
+Proof. exact npy_prefixes_c. Qed.
+Print Assumptions C08_chunk_file_prefixes_concrete.
+
+Theorem C08_damaged_chunk_zero_filled_and_flagged_concrete : forall pad ds files wants p,
+  npy_backed parse_hdr_c ds files wants -> C06P.cfg_ok (cfg_of_dstore ds) p ->
+  (file_damaged (print_hdr_c pad) hdr_ok (files A_VIS (cover ds A_VIS p)) ->
+     dmg_vis ds p = 0 /\ Z.testbit (dmg_flags ds p) 3 = true) /\
+  (file_damaged (print_hdr_c pad) hdr_ok (files A_W (cover ds A_W p)) \/
+   file_damaged (print_hdr_c pad) hdr_ok (files A_WC (cover ds A_WC p)) ->
+     dmg_weights ds p = 0 /\ Z.testbit (dmg_flags ds p) 3 = true) /\
+  (file_damaged (print_hdr_c pad) hdr_ok (files A_FLAGS (cover ds A_FLAGS p)) ->
+     Z.testbit (dmg_flags ds p) 3 = true /\ forall i, 0 <= i -> i <> 3 -> Z.testbit (dmg_flags ds p) i = false) /\
+  ((forall a, In a arrays4 -> file_healthy (print_hdr_c pad) hdr_ok (files a (cover ds a p)) (wants a (cover ds a p))) ->
+     dmg_vis ds p = stored_at ds A_VIS p /\ dmg_weights ds p = stored_at ds A_W p * stored_at ds A_WC p /\
+     dmg_flags ds p = stored_at ds A_FLAGS p).
+Proof. exact damaged_chunk_zero_filled_and_flagged_c. Qed.
+Print Assumptions C08_damaged_chunk_zero_filled_and_flagged_concrete.
+
+(* non-vacuity of the concrete statements: the 128-byte (10 + 118) header numpy writes for a (2, 3, 2) complex64 chunk *)
+Theorem C08_concrete_header_example :
+  let m := mkhdr [60; 99; 56] false [2%nat; 3%nat; 2%nat] in
+  descr_ok (h_descr m) /\ List.length (print_hdr_c 55 m) = 118%nat /\ parse_hdr_c (print_hdr_c 55 m) = Some m /\
+  wf_file (print_hdr_c 55) 1 2 m (repeat 7 96).
+Proof. exact ex_hdr_roundtrip. Qed.
+Print Assumptions C08_concrete_header_example.
